@@ -151,26 +151,57 @@ Qed.
 
 (* training calls on bandits whose training cannot raise (context-free, and neighbourhood policies over
    context-free policies): a rejected fit / partial_fit returns the very same state *)
+Definition lp_is_cf (l : @lp R A G) : Prop := match l with LCf _ => True | LLin _ => False end.
+
 Definition never_raises (i : @imp R A G) : Prop :=
   match i with
   | ICf _ | ITree _ => True
   | INbr _ => True
-  | _ => False
+  | IClu s => Forall lp_is_cf (k_lps s)      (* Clusters over a context-free policy: k-means' own rejections happen before anything is assigned *)
+  | ILin _ => False
   end.
+
+Lemma lp_binarize_is_cf (l : @lp R A G) ds rs : lp_is_cf l -> lp_is_cf (fst (lp_binarize l ds rs)).
+Proof. destruct l as [c|c]; [|contradiction]. intros _. unfold lp_binarize. destruct (lp_is_ts_binz (LCf c)); exact I. Qed.
+
+Lemma clu_binarize_is_cf (s : @clu R A G) ds rs : Forall lp_is_cf (k_lps s) -> Forall lp_is_cf (fst (clu_binarize s ds rs)).
+Proof.
+  intros H. unfold clu_binarize. destruct (k_lps s) as [|l0 t] eqn:E; [constructor|]. rewrite <- E in *.
+  destruct (lp_is_ts_binz l0); [|exact H]. cbn [fst].
+  apply Forall_forall. intros l Hl. apply in_map_iff in Hl. destruct Hl as [l' [<- Hl']].
+  apply lp_binarize_is_cf. rewrite Forall_forall in H. apply H. exact Hl'.
+Qed.
+
+Lemma clu_refit_cf_ok (s : @clu R A G) g labels : Forall lp_is_cf (k_lps s) -> snd (clu_refit N aeqb s g labels) = true.
+Proof.
+  intros H. unfold clu_refit. cbn [snd]. apply forallb_forall. intros x Hx. apply in_map_iff in Hx.
+  destruct Hx as [[c l] [<- Hin]]. apply in_combine_r in Hin. rewrite Forall_forall in H. specialize (H l Hin).
+  destruct l as [cf0|lin0]; [reflexivity | contradiction].
+Qed.
 
 Theorem rejected_training_call_changes_nothing (m : @mab R A G) ds rs cx orc (partial : bool) :
   never_raises (m_imp m) ->
   let o := if partial then PartialFit ds rs cx orc else Fit ds rs cx orc in
   snd (step N aeqb RG m o) = ORejected -> fst (step N aeqb RG m o) = m.
 Proof.
-  intros Hn o. subst o. destruct partial; unfold step;
+  intros Hn o. subst o.
+  assert (Hclu1 : forall (s : @clu R A G), Forall lp_is_cf (k_lps s) -> snd (clu_partial_fit N aeqb s (m_rng m) ds rs (octx cx) (o_labels orc)) = true).
+  { intros s H. unfold clu_partial_fit. pose proof (clu_binarize_is_cf s ds rs H) as Hb. destruct (clu_binarize s ds rs) as [lps rs']. cbn [fst] in Hb.
+    apply clu_refit_cf_ok. exact Hb. }
+  assert (Hclu2 : forall (s : @clu R A G), Forall lp_is_cf (k_lps s) -> snd (clu_fit N aeqb s (m_rng m) ds rs (octx cx) (o_labels orc)) = true).
+  { intros s H. unfold clu_fit. pose proof (clu_binarize_is_cf s ds rs H) as Hb. destruct (clu_binarize s ds rs) as [lps rs']. cbn [fst] in Hb.
+    apply clu_refit_cf_ok. exact Hb. }
+  destruct partial; unfold step;
     (destruct (fit_args_ok N m ds rs cx); [|reflexivity]);
     (destruct (negb (train_shape_ok (m_imp m) _ ds cx)); [reflexivity|]).
   - destruct (m_fitted m); unfold imp_partial_fit, imp_fit; destruct (m_imp m) as [s|s|s|s|s]; simpl in Hn; try contradiction; simpl;
       try discriminate;
       try (destruct (nbr_fit N RG s (m_rng m) ds rs (octx cx)); simpl; discriminate).
+    + pose proof (Hclu1 s Hn) as X. destruct (clu_partial_fit N aeqb s (m_rng m) ds rs (octx cx) (o_labels orc)) as [s' ok]. cbn [snd] in X. subst ok. discriminate.
+    + pose proof (Hclu2 s Hn) as X. destruct (clu_fit N aeqb s (m_rng m) ds rs (octx cx) (o_labels orc)) as [s' ok]. cbn [snd] in X. subst ok. discriminate.
   - unfold imp_fit; destruct (m_imp m) as [s|s|s|s|s]; simpl in Hn; try contradiction; simpl; try discriminate;
       try (destruct (nbr_fit N RG s (m_rng m) ds rs (octx cx)); simpl; discriminate).
+    pose proof (Hclu2 s Hn) as X. destruct (clu_fit N aeqb s (m_rng m) ds rs (octx cx) (o_labels orc)) as [s' ok]. cbn [snd] in X. subst ok. discriminate.
 Qed.
 
 (* queries before the first fit, or without contexts on a contextual bandit, are rejected without any change *)
